@@ -51,6 +51,11 @@ CLAIMS = {
          "and key functions / into / scalar via one argument (R2); that where/filter keep the item iff as_bool(result), via/map collect the result, every/some short-circuit with the right constants, reduce threads the accumulator from args[2] (R3); "
          "and that equivalent forms account call depth alike (R4: two recorded known findings - the built-in forms add depth the operator forms do not).",
          BASE_NOTE, "DESIGN.md §4 C13"),
+ "C14": ("who-may-call lint over resolved callees (byte-offset str APIs, unstable sorts) per match-arm region + sibling signature of the index-normalisation arms + frozen table of key primitives per built-in arm",
+         "Exhaustive static decision of: the evaluator and built-ins call no byte-offset str/String API on user strings (zero-expected rule with a positive control in the AST builder) (R1); sort and sort_by use the stable slice::sort_by and nothing in the built-ins sorts unstably (R2); "
+         "list and string indexing share one normalisation (truncate to i64, negative adds the element resp. character count, still negative -> null, absent -> null) and record/dot/#name access yields null for absent keys (R3); "
+         "each list/string/record built-in is built on its frozen key primitive and on no look-alike (R4). Laws about contents (permutation, flatten/chunk, join/split round trips, partitions) quantify over runtime values and are not decided.",
+         BASE_NOTE, "DESIGN.md §4 C14"),
  "C15": ("sibling agreement and shape oracles by operation signature over the aggregate arms of BuiltInFunction::call",
          "Exhaustive static decision of: in each of min/max/avg/sum/prod/median the result depends on the arguments only through one Vec<f64> built the same way in all six arms - the elements of the single list argument, the single number, or all arguments (R1: the 'one list or separate arguments' clause); "
          "min and max are mirror images (R2); the reduction written in each arm and in percentile is the documented formula - fold from the proper infinity, sum, product, sum/len, middle order statistic(s) of the ascending total_cmp sort, nearest-rank index - with an error on the empty vector (R3, a shape oracle). "
